@@ -8,10 +8,11 @@ from props import httpcommon as hc
 
 KINDS = ['get_ok', 'get_ok', 'get_hit', 'client_abort_mid_response', 'client_reset_mid_response', 'server_close_mid_response', 'server_reset_mid_response', 'server_stall',
          'post_client_abort', 'post_client_stall', 'client_silent', 'client_partial_head', 'connect_ok', 'connect_client_reset', 'connect_server_reset', 'connect_refused',
-         'connect_timeout', 'origin_refused', 'origin_timeout', 'client_not_reading', 'pipeline_abort', 'head_ok', 'server_garbage']
+         'connect_timeout', 'origin_refused', 'origin_timeout', 'client_not_reading', 'pipeline_abort', 'head_ok', 'server_garbage',
+         'slow_response_then_idle', 'slow_response_then_idle', 'keepalive_idle']
 
 TIMEOUT_CONF = ['request_timeout 5 seconds', 'request_start_timeout 5 seconds', 'read_timeout 10 seconds', 'write_timeout 15 seconds', 'client_lifetime 60 seconds', 'pconn_timeout 10 seconds',
-                'client_idle_pconn_timeout 10 seconds', 'connect_timeout 5 seconds', 'forward_timeout 20 seconds', 'pconn_lifetime 30 seconds']
+                'client_idle_pconn_timeout 10 seconds', 'connect_timeout 5 seconds', 'forward_timeout 20 seconds']
 
 def parse_snap(hist, label):
     sim = real = None
@@ -43,6 +44,9 @@ class C08(hc.PProp):
 
     def plan(self, rng, tier, index):
         plan = hc.std_plan(rng, {'cache': rng.choice(['none', 'mem', 'mem', 'ufs', 'rock']), 'lines': list(TIMEOUT_CONF) + ['pipeline_prefetch %d' % rng.choice([0, 1, 3])]})
+        plan['pconn_lifetime'] = rng.choice([0, 2, 5, 30])
+        if plan['pconn_lifetime']:
+            plan['conf']['lines'].append('pconn_lifetime %d seconds' % plan['pconn_lifetime'])
         if rng.random() < 0.3:
             plan['conf']['lines'].append('half_closed_clients on')
         if rng.random() < 0.3:
@@ -109,6 +113,14 @@ class C08(hc.PProp):
                 head = hc.request_head(b'POST', b'http://10.0.0.1/f%d' % rid, [(b'Host', b'10.0.0.1'), (b'X-Sim-Req', b'%d' % rid), (b'Content-Length', b'%d' % (size + 10))])
                 cl.add('send %s' % Payload(head, body.slice(0, int(t['frac'] * size))).token())
                 cl.add('close' if k == 'post_client_abort' else 'stall')
+            elif k in ('slow_response_then_idle', 'keepalive_idle'):
+                # a persistent connection pair that is still busy when its age crosses pconn_lifetime (slow response), then idle with both peers keeping their ends open
+                n = 1200
+                small = Payload(hc.response_head(200, [(b'Content-Length', b'%d' % n), (b'Cache-Control', b'no-store')]), G(key, 0, n))
+                life = plan.get('pconn_lifetime') or 5
+                pace = int(life * 1500000 / n) if k == 'slow_response_then_idle' else 0
+                mkrule().add('send %s%s' % (small.token(), ' seg byte pace %d %d' % (pace, pace + 500) if pace else ''))
+                cl.add('send %s' % tok(get())); cl.add('expect response timeout 100000000 soft'); cl.add('stall')
             elif k == 'client_silent':
                 cl.add('stall')
             elif k == 'client_partial_head':
